@@ -88,6 +88,8 @@ def parse_type(s: str):
 
     def app():
         h = atom()
+        if h in TYPE_HEADS:                   # type constructors added by an extension (see EXTENSION HOOKS below)
+            return (h,) + tuple(atom() for _ in range(TYPE_HEADS[h]))
         if h == "List":
             return ("List", atom())
         if h == "Option":
@@ -136,7 +138,19 @@ def node_tree(t) -> str:
     return t[len("Node@"):]
 
 
+# EXTENSION HOOKS: further Python constructs / idioms and their meaning can be added WITHOUT editing this file, from a plugin
+# (harness/algo_specs/*.py is executed in this namespace): a hook is tried before the built-in rules and returns None when it does not apply.
+TYPE_HEADS = {}        # name of a unary / n-ary type constructor -> arity            ("Col": 1)
+SHOW_TYPE_HOOKS = []   # fn(t) -> lean type text | None
+EXPR_HOOKS = []        # fn(tr: FnTr, e: ast.expr, want) -> (steps, code, type) | None
+STMT_HOOKS = []        # fn(tr: FnTr, s: ast.stmt) -> lean code of the statement | None
+
+
 def show_type(t) -> str:
+    for h in SHOW_TYPE_HOOKS:
+        r = h(t)
+        if r is not None:
+            return r
     if isinstance(t, str):
         if t == "Tree":                            # a tree-valued EXPRESSION (`node.subtree()`): its two topology columns (id, pid)
             return "((List Int) × (List Int))"
@@ -335,6 +349,10 @@ class FnTr:
         if txt in self.spec.subst:
             code, ty, *steps = self.spec.subst[txt]        # (code, type) or (code, type, [fallible steps evaluated before it])
             return list(steps[0]) if steps else [], code, parse_type(ty)
+        for h in EXPR_HOOKS:
+            r = h(self, e, want)
+            if r is not None:
+                return r
         m = getattr(self, "e_" + type(e).__name__, None)
         if m is None:
             raise Untranslatable(f"{self.spec.lean}: expression `{txt}`")
@@ -1341,6 +1359,10 @@ class FnTr:
         if txt in self.spec.stmt_subst:
             new = ast.parse(textwrap.dedent(self.spec.stmt_subst[txt])).body
             return self.block(new)
+        for h in STMT_HOOKS:
+            r = h(self, s)
+            if r is not None:
+                return r
         m = getattr(self, "s_" + type(s).__name__, None)
         if m is None:
             raise Untranslatable(f"{self.spec.lean}: statement `{txt.splitlines()[0]}`")
